@@ -279,7 +279,7 @@ func decodeProp(prop string) *Prop {
 				if tier == "thorough" {
 					return 4000
 				}
-				return 64
+				return 192
 			},
 			Run: func(c *Ctx) { zoneHistoryRun(c, prop) },
 		},
@@ -741,8 +741,10 @@ func zoneHistoryRun(c *Ctx, prop string) {
 		}
 		return d
 	}
+	defer func() { harness.SkipCanon = false }()
 	call := func(i int) (*harness.Result, *world.SimReader, int) {
 		d := file(i)
+		harness.SkipCanon = i != 0 && i != K-1
 		c.Dev.Budget = c.Dev.Seq + tickBudget(len(d))
 		r := newReader(c.Dev, d, Fault{}, Delivery{})
 		return harness.Invoke(e, env, r), r, len(d)
